@@ -349,6 +349,21 @@ Proof.
 Qed.
 Print Assumptions C18_expired_is_past_not_after.
 
+(** ** who cleans, read from the source on every run: nothing inside the package calls CleanStorage (there is no
+    timer path in certmagic itself -- [Cache.maintainAssets] renews and staples only; the application, e.g. Caddy's
+    cleanStorageRegularly, decides when to clean, with which storage and context), CleanStorage is the only user of
+    deleteOldOCSPStaples and deleteExpiredCerts (so they always run under its storage_clean lock), and the only
+    mutating call sites are two Deletes in each helper and the one Store of the record *)
+Theorem C18_cleaning_only_through_CleanStorage :
+  clean_users_CleanStorage = [] /\
+  clean_users_deleteOldOCSPStaples = [spec_clean_storage_name] /\
+  clean_users_deleteExpiredCerts = [spec_clean_storage_name] /\
+  clean_sites_Delete = [0; 2; 2]%nat /\ clean_sites_Store = [1; 0; 0]%nat /\
+  clean_sites_acquireLock = [1; 0; 0]%nat /\ clean_sites_releaseLock = [1; 0; 0]%nat /\
+  clean_sites_Lock = [0; 0; 0]%nat /\ clean_sites_Unlock = [0; 0; 0]%nat.
+Proof. exact consts_callers_ok. Qed.
+Print Assumptions C18_cleaning_only_through_CleanStorage.
+
 (** ** a cleaner that is KILLED while it holds the storage_clean lock (its process dies when its call number n
     begins; [cleank]: the resumption stops, nothing is released -- on FileStorage the lock file stays, goes stale
     after 2 x lockFreshnessInterval and is removed by the next cleaner, C08_stale_recovers): the storage it leaves is
